@@ -362,6 +362,22 @@ def evaluate(ctx, cases, out):
                                  'signature': {'kind': 'monitor', 'parser': case['parser']}})
         logged = case['parser'] != 'default'
         i_head, i_calls = canon_impl(res, log, reg, logged)
+        if res[0] == 'ok' and case['parser'] == 'default':
+            # what a call returns is the caller's: two literals of one result are two objects, and the caller may go on
+            # to change them - no later call may see that (the result is a function of the input alone)
+            given = {id(x) for it in case['items'] for x in it[1:]} | \
+                    {id(y) for it in case['items'] for x in it[1:] if type(x) in (tuple, list) for y in x}
+            muts = [v for v in res[1].values() if type(v) in (list, dict, set) and id(v) not in given]
+            if len({id(v) for v in muts}) != len(muts) and not msg:
+                out.concrete.append({'case': case, 'what': 'two values of one result are the same mutable object',
+                                     'observed': repr(res), 'signature': {'kind': 'aliased-result'}})
+            for v in muts:
+                if type(v) is list:
+                    v.append('changed-by-the-caller')
+                elif type(v) is dict:
+                    v['changed-by-the-caller'] = 1
+                else:
+                    v.add('changed-by-the-caller')
         m_head, m_calls = canon_model(ans)
         out.traces_validated += 1
         if i_head != m_head or (logged and i_calls != m_calls):
@@ -449,4 +465,20 @@ def replay(ctx, payload):
     line, reg = model_line(case)
     ans = ctx.driver.ask([line])[0]
     msg = monitor(case, res, trips)
-    return {'case': case, 'impl': repr(res), 'calls': log, 'model': ans, 'monitor': msg, 'fails': bool(msg)}
+    again = None
+    if not msg and res[0] == 'ok' and case['parser'] == 'default':
+        # the caller changes what it got, then asks again: the second answer is judged like the first
+        for v in res[1].values():
+            if type(v) is list:
+                v.append('changed-by-the-caller')
+            elif type(v) is dict:
+                v['changed-by-the-caller'] = 1
+            elif type(v) is set:
+                v.add('changed-by-the-caller')
+        res2, _, trips2 = run_impl(case)
+        again = repr(res2)
+        msg = monitor(case, res2, trips2)
+        if msg:
+            msg = 'second call with the same input, after the caller changed the first result: ' + msg
+    return {'case': case, 'impl': repr(res), 'impl_second_call': again, 'calls': log, 'model': ans, 'monitor': msg,
+            'fails': bool(msg)}
